@@ -3,6 +3,7 @@ package main
 // Calls: builtins, inlining, contract summaries, interface dispatch, models of library functions.
 
 import (
+	"sort"
 	"os"
 	"fmt"
 	"go/token"
@@ -237,6 +238,11 @@ func (e *Exec) callFunction(st *State, fr *Frame, fn *ssa.Function, args []Value
 	// oldspec_*: a spec function evaluated in the entry state of the call under specification (two-state clauses)
 	if strings.HasPrefix(fn.Name(), "oldspec_") && e.oldState != nil && !e.inOldSpec {
 		return e.callOldSpec(st, fr, fn, args, pos)
+	}
+	// a function declared pure is, for its callers and for spec functions alike, an uninterpreted function of its
+	// arguments and of the heap components it may read
+	if sp := e.specs.ForFn(fn); sp != nil && sp.Pure && fnName(fn) != e.curFn && e.inlineAll == 0 {
+		return e.callPure(st, fr, sp, fn, args, pos)
 	}
 	// contract?
 	if sp := e.specs.ForFn(fn); sp != nil && e.specMode == 0 {
@@ -570,7 +576,12 @@ func (e *Exec) primForall(st *State, fr *Frame, n *Term, f *FuncV) *Term {
 	if e.specAssert {
 		// proving the clause: every instance must be well defined. (When the clause is assumed, the per-index
 		// guard D => R below already makes undefined instances carry no information.)
-		e.specDefs = append(e.specDefs, Forall([]*Term{i}, Implies(rng, D), pats...))
+		// (guarded, like every other definedness condition, by the path on which the quantifier is evaluated)
+		n := savedBase
+		if n > len(st.pc) {
+			n = len(st.pc)
+		}
+		e.specDefs = append(e.specDefs, Implies(And(st.pc[n:]...), Forall([]*Term{i}, Implies(rng, D), pats...)))
 	}
 	return Forall([]*Term{i}, Implies(rng, Implies(D, R)), pats...)
 }
@@ -621,7 +632,11 @@ func (e *Exec) primMapAll(st *State, fr *Frame, m *MapV, f *FuncV) *Term {
 		st.AssumeFact(Forall([]*Term{k}, And(facts...), pats...))
 	}
 	if e.specAssert {
-		e.specDefs = append(e.specDefs, Forall([]*Term{k}, Implies(present, D), pats...))
+		n := savedBase
+		if n > len(st.pc) {
+			n = len(st.pc)
+		}
+		e.specDefs = append(e.specDefs, Implies(And(st.pc[n:]...), Forall([]*Term{k}, Implies(present, D), pats...)))
 	}
 	return Forall([]*Term{k}, Implies(present, Implies(D, R)), pats...)
 }
@@ -663,7 +678,11 @@ func (e *Exec) primMapAll2(st *State, fr *Frame, m *MapV, f *FuncV) *Term {
 	}
 	rng := And(p1, p2, Not(Eq(k1, k2)))
 	if e.specAssert {
-		e.specDefs = append(e.specDefs, Forall([]*Term{k1, k2}, Implies(rng, D), pats...))
+		n := savedBase
+		if n > len(st.pc) {
+			n = len(st.pc)
+		}
+		e.specDefs = append(e.specDefs, Implies(And(st.pc[n:]...), Forall([]*Term{k1, k2}, Implies(rng, D), pats...)))
 	}
 	return Forall([]*Term{k1, k2}, Implies(rng, Implies(D, R)), pats...)
 }
@@ -1102,4 +1121,63 @@ func (e *Exec) callOldSpec(st *State, fr *Frame, fn *ssa.Function, args []Value,
 		res = append(res, Outcome{s2, rs})
 	}
 	return res
+}
+
+// readsCovers: does one of the declared read prefixes cover the heap key?
+func readsCovers(reads []string, key string) bool {
+	for _, r := range reads {
+		if strings.HasPrefix(key, r) || strings.HasPrefix(key, "A:"+r) || strings.HasPrefix(key, "A:*"+r) || strings.HasPrefix(key, "cell:"+r) || strings.HasPrefix(key, "cell:*"+r) {
+			return true
+		}
+	}
+	return false
+}
+
+// callPure: the results are uninterpreted functions of the arguments and of the current contents of every heap
+// component the function may read. Preconditions are obligations, postconditions assumptions, nothing is modified.
+func (e *Exec) callPure(st *State, fr *Frame, sp *FnSpec, fn *ssa.Function, args []Value, pos token.Pos) []Outcome {
+	e.note("pure function (an uninterpreted function of its arguments and of the heap components " + strings.Join(sp.Reads, ", ") + "; its reads are checked when it is verified itself): " + sp.Target)
+	if e.discovery == 0 && e.specMode == 0 && e.usedSpecs != nil {
+		e.usedSpecs[sp] = true
+	}
+	params := e.paramMap(fn, args)
+	cf := &Frame{fn: fn, params: params, entry: st, depth: fr.depth + 1}
+	for _, c := range sp.Requires {
+		t := e.evalSpec(st, cf, c, func(n string, t types.Type) (Value, bool) { return e.topEnvLookup(st, cf, n, t) }, true)
+		e.oblige(st, fr, "callsite.requires."+fn.Name()+"."+c.Name, pos, t)
+	}
+	var in []*Term
+	for i, p := range fn.Params {
+		in = append(in, flatten(p.Type(), args[i])...)
+	}
+	var keys []string
+	for k := range heapSorts {
+		if !strings.HasPrefix(k, "ghost:") && !strings.HasPrefix(k, "cell:") && !strings.HasSuffix(k, ".$held") && readsCovers(sp.Reads, k) {
+			keys = append(keys, k)
+		}
+	}
+	sort.Strings(keys)
+	for _, k := range keys {
+		in = append(in, st.heap(k, heapSorts[k]))
+	}
+	res := fn.Signature.Results()
+	var rs []Value
+	for i := 0; i < res.Len(); i++ {
+		cs := components(res.At(i).Type())
+		ts := make([]*Term, len(cs))
+		for k, c := range cs {
+			ts[k] = App(fmt.Sprintf("pure:%s/%d.%d%s", fnName(fn), len(in), i, c.suffix), c.sort, in...)
+		}
+		v := unflatten(res.At(i).Type(), &ts)
+		e.assumeValid(st, res.At(i).Type(), v)
+		rs = append(rs, v)
+	}
+	env := e.resultEnv(st, cf, rs)
+	savedOld := e.oldState
+	e.oldState = st
+	for _, c := range sp.Ensures {
+		st.Assume(e.evalSpec(st, cf, c, env, false))
+	}
+	e.oldState = savedOld
+	return one(st, rs...)
 }
